@@ -85,6 +85,7 @@ structure AtomFrame (st st' : St) (b : Bool) : Prop where
   depth : st'.depth = st.depth
   fail_cur : b = false → st'.cur = st.cur
   mono : st.cur.pos ≤ st'.cur.pos
+  inb : st.cur.pos ≤ st.endp → st'.cur.pos ≤ st.endp
 
 theorem eolMatch_frame (cx : Ctx) (st : St) :
     (eolMatch cx st).2.2.endp = st.endp ∧ (eolMatch cx st).2.2.depth = st.depth ∧
@@ -93,12 +94,24 @@ theorem eolMatch_frame (cx : Ctx) (st : St) :
   unfold eolMatch
   cases cx.eol <;> simp only <;> (repeat' split) <;> simp_all
 
+theorem eolMatch_inb (cx : Ctx) (st : St) (hle : st.cur.pos ≤ st.endp) :
+    (eolMatch cx st).2.2.cur.pos ≤ st.endp := by
+  have g0 : 0 < st.endp - st.cur.pos ↔ st.cur.pos < st.endp := by omega
+  have g1 : 1 < st.endp - st.cur.pos ↔ st.cur.pos + 1 < st.endp := by omega
+  unfold eolMatch
+  by_cases h0 : st.cur.pos < st.endp <;> by_cases h1 : st.cur.pos + 1 < st.endp <;>
+  by_cases a10 : cx.inp[st.cur.pos]?.getD 0 = 10 <;> by_cases a13 : cx.inp[st.cur.pos]?.getD 0 = 13 <;>
+  by_cases b10 : cx.inp[st.cur.pos + 1]?.getD 0 = 10 <;>
+  cases cx.eol <;>
+  simp [St.avail, rd, bumpToNextLine, bumpToNextLineC, markOob, g0, g1, h0, h1, a10, a13, b10] <;> omega
+
 theorem atomStep_frame (cx : Ctx) (a : Atom) (st : St) :
     AtomFrame st (atomStep cx a st).2 (atomStep cx a st).1 := by
   have he := eolMatch_frame cx st
+  have hi := eolMatch_inb cx st
   cases a <;> simp only [atomStep] <;> (repeat' split) <;>
     first
-    | (constructor <;> simp_all)
-    | (constructor <;> simp_all <;> omega)
+    | (constructor <;> simp_all [St.avail, St.empty] <;> omega)
+    | (constructor <;> simp_all [St.avail, St.empty])
 
 end Pegtl
